@@ -20,7 +20,8 @@ instance instDecEqExcept {ε α : Type} [DecidableEq ε] [DecidableEq α] : Deci
 
 /-! ### the regenerated obligation -/
 
-/-- Why a row with `omitempty` and a non-zero default is tolerated. Only `losesZero` rows are defects (F16):
+/-- Why a row with `omitempty` and a non-zero default is tolerated. Only `losesZero` rows are defects (F16;
+    after fixes/F16.patch those rows no longer carry omitempty and their entries here are vacuous):
     the zero value is a valid, distinct setting and print→load turns it into the default. -/
 inductive Why
   | losesZero        -- F16
@@ -298,7 +299,7 @@ theorem validate_stable (g : Global) (c : Scrape) :
 
 /-- Full statement (model level): every configuration produced by `load` is reproduced by loading its
     printed form, and printing that again gives the same document. NOT proved in this generality; it is
-    FALSE on the current tree (F16/F17, witnesses above). What is proved: the record-level theorem
+    FALSE on the tree as found (F16, repaired by fixes/F16.patch; F17 remains — witnesses above). What is proved: the record-level theorem
     `record_roundtrip` (every struct's scalar fields, for all values avoiding the exception fields at
     zero), idempotence of both normalisation passes, and the instances below evaluated by the kernel.
     Missing: lifting `record_roundtrip` through the list/option-valued fields of `Config`. -/
